@@ -1,95 +1,377 @@
 """C04 — Cursor fetches deliver every row exactly once, in order.
 
-Correspondence: histories over {fetchone, fetchmany(k), fetchall, arraysize, observers,
-append} are run on orso.DataFrame and on Model/Cursor.lean; outputs are compared and the
-property's oracle is evaluated on the implementation's own outputs.
+Correspondence: histories over {fetchone, fetchmany(k), fetchall, arraysize, observers, append} are run
+on orso.DataFrame and on the *code machine* of Model/Cursor.lean (iterators, the fetchmany loop,
+list(cursor); guards and fetch-size arithmetic regenerated from the source).  The property's oracle is
+evaluated on the implementation's own outputs.
+
+Frames under test (`case["src"]`):
+  materialised  rows= / dictionaries / tuple schema / RelationSchema
+  lazily backed a generator, an iterator, DataFrame.from_arrow over a list / tuple / generator of tables
+                or a single table (tables may be empty: first, in the middle, last), converters.from_arrow
+                with a max size, and the lazy results of select / filter / take (parent materialised or
+                itself lazy).  Lazy frames are read only through the cursor (+ schema-level observers).
+
+Observers are enumerated from the DataFrame class: every public member (and every read dunder) must be
+covered by a recipe, be a known non-observer, or it is picked up automatically when it is a property or
+a `to_*/as_*/is_*/get_*` method callable without arguments that leaves the rows alone on a scratch frame.
 """
+import inspect
 import itertools
 
 from .. import wire
 from ..core import InfraError, shrink
 
+NAMES = ["a", "b"]
+EAGER_KINDS = ("rows", "dicts", "tuple-schema", "relation")
+LAZY_KINDS = ("gen", "iter", "arrow", "select", "filter", "take")
+ARROW_HOW = ("list", "tuple", "gen", "single")
 
-def _observers():
+# ----------------------------------------------------------------------------- observers
+
+# members of DataFrame that are not read-only observations (cursor API, mutators, constructors)
+NOT_OBSERVERS = {"append", "fetchone", "fetchmany", "fetchall", "arraysize", "from_arrow"}
+READ_DUNDERS = ("__len__", "__iter__", "__getitem__", "__hash__", "__repr__", "__str__", "__add__", "__contains__",
+                "__eq__", "__bool__", "__reversed__", "__copy__", "__deepcopy__", "__sizeof__", "__format__")
+
+
+def _first_col(df):
+    return list(df.column_names)[:1]
+
+
+def _recipes():
+    """label -> (member it covers, kind, fn).  kind: 'pure' (schema only), 'rows', 'nbytes'."""
     import orso  # noqa
+    from orso import DataFrame
+    from orso import converters as conv
+    from orso import display as disp
 
-    return [
-        ("rowcount", lambda df: df.rowcount),
-        ("len", lambda df: len(df)),
-        ("shape", lambda df: df.shape),
-        ("collect", lambda df: df.collect(0) if df.columncount else None),
-        ("getitem", lambda df: df["a"] if df.columncount else None),
-        ("iter", lambda df: [r for r in df]),
-        ("slice", lambda df: df.slice(1, 2).rowcount),
-        ("head", lambda df: df.head(2).rowcount),
-        ("tail", lambda df: df.tail(1).rowcount),
-        ("arrow", lambda df: df.arrow().num_rows),
-        ("display", lambda df: df.display(limit=2, colorize=False)),
-        ("markdown", lambda df: df.markdown(limit=2)),
-        ("markdown-all", lambda df: df.markdown(limit=0)),
-        ("markdown-neg", lambda df: df.markdown(limit=-1)),
-        ("display-all", lambda df: df.display(limit=0, colorize=False)),
-        ("display-types", lambda df: df.display(limit=1, show_types=True, colorize=True)),
-        ("pandas", lambda df: df.pandas().shape),
-        ("arrow-size", lambda df: df.arrow(size=1).num_rows),
-        ("batches", lambda df: [b.rowcount for b in df.to_batches(2)]),
-        ("filter", lambda df: df.filter([True] * df.rowcount).rowcount),
-        ("take", lambda df: df.take([0]).rowcount),
-        ("select", lambda df: df.select(list(df.column_names)[:1]).rowcount),
-        ("add", lambda df: (df + df).rowcount),
-        ("description", lambda df: df.description),
-        ("hash", lambda df: hash(df)),
-        ("repr", lambda df: repr(df)),
-        ("group", lambda df: df.group_by(list(df.column_names)[:1]).count().rowcount if df.columncount else None),
-        ("str", lambda df: str(df)),
-        ("row", lambda df: df.row(0) if df.rowcount else None),
-        ("column_names", lambda df: df.column_names),
-        ("nbytes", lambda df: df.nbytes()),
-        ("distinct", lambda df: df.distinct().rowcount),
-        ("query", lambda df: df.query(lambda r: True).rowcount),
+    R = [
+        # --- the observers of round 1, in their original order (old replays address them by index)
+        ("rowcount", "rowcount", "rows", lambda df: df.rowcount),
+        ("len", "__len__", "rows", lambda df: len(df)),
+        ("shape", "shape", "rows", lambda df: df.shape),
+        ("collect", "collect", "rows", lambda df: df.collect(0) if df.columncount else None),
+        ("getitem", "__getitem__", "rows", lambda df: df["a"] if df.columncount else None),
+        ("iter", "__iter__", "rows", lambda df: [r for r in df]),
+        ("slice", "slice", "rows", lambda df: df.slice(1, 2).rowcount),
+        ("head", "head", "rows", lambda df: df.head(2).rowcount),
+        ("tail", "tail", "rows", lambda df: df.tail(1).rowcount),
+        ("arrow", "arrow", "rows", lambda df: df.arrow().num_rows),
+        ("display", "display", "rows", lambda df: df.display(limit=2, colorize=False)),
+        ("markdown", "markdown", "rows", lambda df: df.markdown(limit=2)),
+        ("markdown-all", "markdown", "rows", lambda df: df.markdown(limit=0)),
+        ("markdown-neg", "markdown", "rows", lambda df: df.markdown(limit=-1)),
+        ("display-all", "display", "rows", lambda df: df.display(limit=0, colorize=False)),
+        ("display-types", "display", "rows", lambda df: df.display(limit=1, show_types=True, colorize=True)),
+        ("pandas", "pandas", "rows", lambda df: df.pandas().shape),
+        ("arrow-size", "arrow", "rows", lambda df: df.arrow(size=1).num_rows),
+        ("batches", "to_batches", "rows", lambda df: [b.rowcount for b in df.to_batches(2)]),
+        ("filter", "filter", "rows", lambda df: df.filter([True] * df.rowcount).rowcount),
+        ("take", "take", "rows", lambda df: df.take([0]).rowcount),
+        ("select", "select", "rows", lambda df: df.select(_first_col(df)).rowcount),
+        ("add", "__add__", "rows", lambda df: (df + df).rowcount),
+        ("description", "description", "pure", lambda df: df.description),
+        ("hash", "__hash__", "rows", lambda df: hash(df)),
+        ("repr", "__repr__", "rows", lambda df: repr(df)),
+        ("group", "group_by", "rows", lambda df: df.group_by(_first_col(df)).count().rowcount if df.columncount else None),
+        ("str", "__str__", "rows", lambda df: str(df)),
+        ("row", "row", "rows", lambda df: df.row(0) if df.rowcount else None),
+        ("column_names", "column_names", "pure", lambda df: df.column_names),
+        ("nbytes", "nbytes", "nbytes", lambda df: df.nbytes()),
+        ("distinct", "distinct", "rows", lambda df: df.distinct().rowcount),
+        ("query", "query", "rows", lambda df: df.query(lambda r: True).rowcount),
+        # --- round 2: the members that had no recipe
+        ("columncount", "columncount", "pure", lambda df: df.columncount),
+        ("schema", "schema", "pure", lambda df: df.schema),
+        ("arraysize-get", "arraysize", "pure", lambda df: df.arraysize),
+        ("materialize", "materialize", "rows", lambda df: df.materialize()),
+        ("profile", "profile", "rows", lambda df: df.profile),
+        ("polars", "polars", "rows", lambda df: _polars(df)),
+        ("collect-list", "collect", "rows", lambda df: df.collect(list(range(df.columncount)), limit=1)),
+        ("collect-neg", "collect", "rows", lambda df: df.collect(0, limit=-5) if df.columncount else None),
+        ("getitem-list", "__getitem__", "rows", lambda df: df[list(df.column_names)]),
+        ("slice-neg", "slice", "rows", lambda df: df.slice(-2).rowcount),
+        ("slice-zero", "slice", "rows", lambda df: df.slice(0, 0).rowcount),
+        ("head-0", "head", "rows", lambda df: df.head(0).rowcount),
+        ("tail-all", "tail", "rows", lambda df: df.tail(10**6).rowcount),
+        ("pandas-size", "pandas", "rows", lambda df: df.pandas(size=1).shape),
+        ("batches-1", "to_batches", "rows", lambda df: [b.rowcount for b in df.to_batches(1)]),
+        ("group-max", "group_by", "rows", lambda df: df.group_by(_first_col(df)).max(list(df.column_names)[-1:]).rowcount if df.columncount else None),
+        ("display-wide", "display", "rows", lambda df: df.display(limit=10**6, display_width=False, max_column_width=3, colorize=False)),
+        ("markdown-big", "markdown", "rows", lambda df: df.markdown(limit=10**6, max_column_width=1)),
+        # --- the module-level functions a frame can be handed to
+        ("fn:ascii_table", "display", "rows", lambda df: disp.ascii_table(df, limit=3, colorize=False)),
+        ("fn:ascii_table-toptail", "__str__", "rows", lambda df: disp.ascii_table(df, limit=2, top_and_tail=True, colorize=False)),
+        ("fn:markdown-all", "markdown", "rows", lambda df: list(disp.markdown(df, limit=0))),
+        ("fn:html_table", "__str__", "rows", lambda df: disp.html_table(df, 2)),
+        ("fn:to_arrow", "arrow", "rows", lambda df: conv.to_arrow(df).num_rows),
+        ("fn:to_pandas", "pandas", "rows", lambda df: conv.to_pandas(df, 2).shape),
+        # --- a second object made from the frame is read through *its* cursor: the parent's must not move
+        ("child:slice-fetchall", "slice", "rows", lambda df: df.slice(0).fetchall()),
+        ("child:head-fetchone", "head", "rows", lambda df: df.head(10**6).fetchone()),
+        ("child:tail-fetchmany", "tail", "rows", lambda df: df.tail(10**6).fetchmany(2)),
+        ("child:query-fetchall", "query", "rows", lambda df: df.query(lambda r: True).fetchall()),
+        ("child:distinct-fetchmany", "distinct", "rows", lambda df: df.distinct().fetchmany()),
+        ("child:select-fetchall", "select", "rows", lambda df: df.select(list(df.column_names)).fetchall()),
+        ("child:filter-fetchone", "filter", "rows", lambda df: df.filter([True] * df.rowcount).fetchone()),
+        ("child:take-fetchall", "take", "rows", lambda df: df.take(range(df.rowcount)).fetchall()),
+        ("child:add-fetchall", "__add__", "rows", lambda df: (df + df).fetchall()),
+        ("child:batches-fetch", "to_batches", "rows", lambda df: [b.fetchall() for b in df.to_batches(2)]),
+        ("child:arrow-roundtrip", "arrow", "rows", lambda df: DataFrame.from_arrow(df.arrow()).fetchall() if df.columncount else None),
+        ("iter-partial", "__iter__", "rows", lambda df: next(iter(df), None)),
+        ("iter-twice", "__iter__", "rows", lambda df: [list(zip(df, df))]),
     ]
+    return R
+
+
+def _polars(df):
+    # to_polars reads `row.as_dict`: it only works on frames whose rows are Row objects (dictionary-built
+    # or appended); on plain tuples it raises whatever the cursor has done — not this property's business
+    if all(hasattr(r, "as_dict") for r in (df._rows if isinstance(df._rows, list) else [])):
+        return df.polars().shape
+    return None
+
+
+class Observers:
+    def __init__(self):
+        from orso import DataFrame
+
+        self.recipes = _recipes()
+        self.legacy = [r[0] for r in self.recipes[:33]]
+        self.by_label = {r[0]: r for r in self.recipes}
+        covered = {r[1] for r in self.recipes}
+        members = [n for n, _ in inspect.getmembers(DataFrame) if not n.startswith("_")]
+        members += [n for n in DataFrame.__dict__ if n in READ_DUNDERS or (n.startswith("__") and n not in (
+            "__init__", "__new__", "__slots__", "__module__", "__doc__", "__qualname__", "__dict__", "__weakref__",
+            "__annotations__", "__firstlineno__", "__static_attributes__") and callable(DataFrame.__dict__[n]))]
+        self.members = sorted(set(members))
+        self.auto, self.unclassified = [], []
+        for name in self.members:
+            if name in covered or name in NOT_OBSERVERS or name in DataFrame.__slots__:
+                continue
+            fn = self._auto(DataFrame, name)
+            if fn is None:
+                self.unclassified.append(name)
+                continue
+            label = "auto:" + name
+            rec = (label, name, "rows", fn)
+            self.recipes.append(rec)
+            self.by_label[label] = rec
+            self.auto.append(name)
+        self.eager_labels = [r[0] for r in self.recipes]
+        self.pure_labels = [r[0] for r in self.recipes if r[2] == "pure"]
+
+    @staticmethod
+    def _auto(DataFrame, name):
+        """A recipe for a member nobody wrote one for — only when it looks like a read-only observation."""
+        attr = inspect.getattr_static(DataFrame, name)
+        if isinstance(attr, property):
+            fn = lambda df, name=name: getattr(df, name)  # noqa: E731
+        elif inspect.isfunction(attr) and name.startswith(("to_", "as_", "is_", "get_", "has_")):
+            params = list(inspect.signature(attr).parameters.values())[1:]
+            if any(p.default is inspect.Parameter.empty and p.kind in (p.POSITIONAL_ONLY, p.POSITIONAL_OR_KEYWORD, p.KEYWORD_ONLY) for p in params):
+                return None
+
+            def fn(df, name=name):
+                v = getattr(df, name)()
+                return list(v) if inspect.isgenerator(v) else v
+        else:
+            return None
+        for rows in ([(1, 2), (3, 4), (5, 6)], []):
+            try:
+                df = DataFrame(rows=list(rows), schema=list(NAMES))
+                fn(df)
+                if not isinstance(df._rows, list) or [tuple(r) for r in df._rows] != rows:
+                    return None  # it changes the rows: not a read-only observation
+            except Exception:
+                return None  # it does not work on a plain frame: other properties' business
+        return fn
+
+    def get(self, ref):
+        if isinstance(ref, int):  # round-1 replays
+            return self.by_label[self.legacy[ref % len(self.legacy)]]
+        if ref not in self.by_label:
+            raise InfraError("unknown observer %r (a replay of an automatically enumerated member that is gone?)" % (ref,))
+        return self.by_label[ref]
 
 
 OBS = None
 
 
-def run_impl(case):
-    """Run a history on the real DataFrame. Returns (outs, error)."""
+def observers():
     global OBS
+    if OBS is None:
+        OBS = Observers()
+    return OBS
+
+
+# ----------------------------------------------------------------------------- cases
+
+
+def norm_case(case):
+    """Round-1 cases ({"rows", "ctor", "lazy": true}) in the round-2 shape."""
+    if "src" in case:
+        return case
+    c = {"width": case["width"], "ops": case["ops"]}
+    if case.get("lazy"):
+        c["src"] = {"kind": "gen", "rows": case["rows"]}
+    else:
+        c["src"] = {"kind": case.get("ctor", "rows"), "rows": case["rows"]}
+    if "arraysize0" in case:
+        c["arraysize0"] = case["arraysize0"]
+    return c
+
+
+def is_lazy(case):
+    return case["src"]["kind"] in LAZY_KINDS
+
+
+def _project(src, width):
+    names = NAMES[:width]
+    cols = [c for c in src["columns"] if c in names]
+    return cols, [names.index(c) for c in cols]
+
+
+def layout(case):
+    """(frame rows, tables for the model, max size) — what the frame under test holds, computed here."""
+    src, w = case["src"], case["width"]
+    k = src["kind"]
+    if "_twin" in case:  # see reference_rows
+        return case["_twin"], [[r] for r in case["_twin"]], None
+    if k in EAGER_KINDS or k in ("gen", "iter"):
+        rows = [list(r) for r in src["rows"]]
+        return rows, [rows], None
+    if k == "arrow":
+        tables = [[list(r) for r in t] for t in src["tables"]]
+        rows = [r for t in tables for r in t]
+        size = src.get("size")
+        return (rows if size is None else rows[:size]), tables, size
+    parent = [list(r) for r in src["rows"]]
+    if k == "select":
+        _, idx = _project(src, w)
+        tables = [[[r[i] for i in idx]] for r in parent]
+    elif k == "filter":
+        tables = [[r] if m else [] for r, m in zip(parent, src["mask"])]
+    elif k == "take":
+        tables = [[r] if i in src["indexes"] else [] for i, r in enumerate(parent)]
+    else:
+        raise InfraError("bad source kind %r" % (k,))
+    return [r for t in tables for r in t], tables, None
+
+
+_TABLE_CACHE = {}
+
+
+def _arrow_table(rows, width):
+    import pyarrow
+
+    key = (width, tuple(tuple(r) for r in rows))
+    t = _TABLE_CACHE.get(key)
+    if t is None:
+        t = pyarrow.table({n: pyarrow.array([r[i] for r in rows], pyarrow.int64()) for i, n in enumerate(NAMES[:width])})
+        if len(_TABLE_CACHE) < 5000:
+            _TABLE_CACHE[key] = t
+    return t
+
+
+def build(case):
+    """The frame under test."""
     from orso import DataFrame
 
-    if OBS is None:
-        OBS = _observers()
-    rows = [tuple(r) for r in case["rows"]]
-    names = ["a", "b"][: case["width"]]
-    if case.get("lazy"):
-        df = DataFrame(rows=(r for r in rows), schema=names)
-    elif case.get("ctor") == "dicts" and rows:
-        df = DataFrame([dict(zip(names, r)) for r in rows])  # built from dictionaries (size total not computed yet)
-    elif case.get("ctor") == "tuple-schema":
-        df = DataFrame(rows=list(rows), schema=tuple(names))
+    src, w = case["src"], case["width"]
+    k = src["kind"]
+    names = NAMES[:w]
+    rows = [tuple(r) for r in src.get("rows", [])]
+    if k == "rows":
+        return DataFrame(rows=list(rows), schema=list(names))
+    if k == "dicts":
+        return DataFrame([dict(zip(names, r)) for r in rows])  # the running byte total is not kept yet
+    if k == "tuple-schema":
+        return DataFrame(rows=list(rows), schema=tuple(names))
+    if k == "relation":
+        from orso.schema import FlatColumn, RelationSchema
+        from orso.types import OrsoTypes
+
+        sch = RelationSchema(name="t", columns=[FlatColumn(name=n, type=OrsoTypes.INTEGER) for n in names])
+        return DataFrame(rows=list(rows), schema=sch)
+    if k == "gen":
+        return DataFrame(rows=(r for r in rows), schema=list(names))
+    if k == "iter":
+        return DataFrame(rows=iter(list(rows)), schema=list(names))
+    if k == "arrow":
+        tabs = [_arrow_table(t, w) for t in src["tables"]]
+        how = src.get("how", "list")
+        arg = {"list": lambda: list(tabs), "tuple": lambda: tuple(tabs), "gen": lambda: (t for t in tabs), "single": lambda: tabs[0]}[how]()
+        if src.get("size") is None:
+            return DataFrame.from_arrow(arg)
+        from orso.converters import from_arrow
+
+        it, schema = from_arrow(arg, size=src["size"])
+        return DataFrame(rows=it, schema=schema)
+    if src.get("parent") == "gen":
+        parent = DataFrame(rows=(r for r in rows), schema=list(names))
     else:
-        df = DataFrame(rows=list(rows), schema=names)
+        parent = DataFrame(rows=list(rows), schema=list(names))
+    if k == "select":
+        return parent.select(list(src["columns"]))
+    if k == "filter":
+        return parent.filter(list(src["mask"]))
+    if k == "take":
+        return parent.take(list(src["indexes"]))
+    raise InfraError("bad source kind %r" % (k,))
+
+
+def reference_rows(ctx, case):
+    """For select / filter / take the rows of the frame are whatever the operation selects — C03/C05's
+    business, not this property's.  A twin frame is materialised by iteration; if it holds other rows than
+    this harness expects, the twin's rows are the reference (and the fact is counted)."""
+    if case["src"]["kind"] not in ("select", "filter", "take"):
+        return case
+    try:
+        twin = [_row(r) for r in build(case)]
+    except Exception:
+        return case
+    if twin != layout(case)[0]:
+        ctx.hit("derived-frame:rows-differ-from-harness-expectation")
+        return dict(case, _twin=twin)
+    return case
+
+
+def _py(v):
+    return v.item() if hasattr(v, "item") and not isinstance(v, (int, float, str)) else v
+
+
+def _row(r):
+    return [_py(v) for v in r]
+
+
+def run_impl(case):
+    """Run a history on the real DataFrame. Returns (outs, final rows of a materialised frame or None)."""
+    obs = observers()
+    df = build(case)
+    rel = case["src"]["kind"] == "relation"
+    names = NAMES[: case["width"]]
     outs = []
     for op in case["ops"]:
         k = op[0]
         try:
             if k == "fetchone":
                 r = df.fetchone()
-                outs.append(["one", None if r is None else list(r)])
+                outs.append(["one", None if r is None else _row(r)])
             elif k == "fetchmany":
                 rs = df.fetchmany() if op[1] is None else df.fetchmany(op[1])
-                outs.append(["many", [list(r) for r in rs]])
+                outs.append(["many", [_row(r) for r in rs]])
             elif k == "fetchall":
-                outs.append(["many", [list(r) for r in df.fetchall()]])
+                outs.append(["many", [_row(r) for r in df.fetchall()]])
             elif k == "arraysize":
                 df.arraysize = op[1]
                 outs.append(["unit"])
             elif k == "observe":
-                OBS[op[1] % len(OBS)][1](df)
+                obs.get(op[1])[3](df)
                 outs.append(["unit"])
             elif k == "append":
-                df.append(tuple(op[1]))
+                df.append(dict(zip(names, op[1])) if rel else tuple(op[1]))
                 outs.append(["unit"])
             else:
                 raise InfraError("bad op " + repr(op))
@@ -99,26 +381,33 @@ def run_impl(case):
             if k in ("fetchone", "fetchmany", "fetchall"):
                 outs.append(["err"])
             else:
-                outs.append(["raised", type(e).__name__, k if k != "observe" else OBS[op[1] % len(OBS)][0]])
+                outs.append(["raised", type(e).__name__, k if k != "observe" else obs.get(op[1])[0]])
     final_rows = None
-    if not case.get("lazy"):
-        final_rows = [list(r) for r in df._rows] if isinstance(df._rows, list) else None
+    if not is_lazy(case):
+        final_rows = [_row(r) for r in df._rows] if isinstance(df._rows, list) else None
     return outs, final_rows
 
 
 def model_line(case):
+    obs = observers()
     ops = []
     for op in case["ops"]:
         if op[0] == "observe":
-            ops.append(["observe"])
+            ops.append(["observe", obs.get(op[1])[2]])
         else:
             ops.append(list(op))
-    return "C04 run " + wire.line(case.get("arraysize0", 100), case["rows"], ops)
+    rows, tables, size = layout(case)
+    k = case["src"]["kind"]
+    if is_lazy(case):
+        frame = ["lazy", tables, size, k == "arrow"]
+    else:
+        frame = ["eager", rows, k == "dicts", k == "relation"]
+    return "C04 frame " + wire.line(case.get("arraysize0", 100), frame, ops)
 
 
 def oracle(case, outs, final_rows):
     """The property, evaluated directly on the implementation's outputs. Returns clause or None."""
-    rows = [list(r) for r in case["rows"]]
+    rows = layout(case)[0]
     delivered = []
     arraysize = case.get("arraysize0", 100)
     appended = False
@@ -167,21 +456,60 @@ def _norm(clause):
     return None if clause is None else "".join(ch for ch in clause if not ch.isdigit())
 
 
+def _rows_ok(rows, w):
+    return isinstance(rows, list) and all(isinstance(r, list) and len(r) == w for r in rows)
+
+
 def valid_case(c):
     w = c.get("width")
-    if w not in (1, 2) or not isinstance(c.get("ops"), list) or not c["ops"]:
+    src = c.get("src")
+    if w not in (1, 2) or not isinstance(c.get("ops"), list) or not c["ops"] or not isinstance(src, dict):
         return False
-    if any(len(r) != w for r in c["rows"]):
+    k = src.get("kind")
+    if k in EAGER_KINDS or k in ("gen", "iter"):
+        if not _rows_ok(src.get("rows"), w) or (k == "dicts" and not src["rows"]):
+            return False
+    elif k == "arrow":
+        ts = src.get("tables")
+        if not isinstance(ts, list) or not ts or not all(_rows_ok(t, w) for t in ts):
+            return False
+        if any(not isinstance(v, int) or isinstance(v, bool) for t in ts for r in t for v in r):
+            return False
+        if src.get("how", "list") not in ARROW_HOW or (src.get("how") == "single" and len(ts) != 1):
+            return False
+        if src.get("size") is not None and (not isinstance(src["size"], int) or src["size"] < 1):
+            return False
+    elif k in ("select", "filter", "take"):
+        if not _rows_ok(src.get("rows"), w) or src.get("parent", "rows") not in ("rows", "gen"):
+            return False
+        if k == "select" and (not isinstance(src.get("columns"), list) or not src["columns"]
+                              or any(x not in NAMES[:w] for x in src["columns"]) or len(set(src["columns"])) != len(src["columns"])):
+            return False
+        if k == "filter" and (not isinstance(src.get("mask"), list) or any(not isinstance(m, bool) for m in src["mask"])):
+            return False
+        if k == "take" and (not isinstance(src.get("indexes"), list) or any(not isinstance(m, int) or isinstance(m, bool) for m in src["indexes"])):
+            return False
+    else:
         return False
+    lazy = k in LAZY_KINDS
+    obs = observers()
     for op in c["ops"]:
         if not isinstance(op, list) or not op:
             return False
-        if op[0] == "append" and (len(op) != 2 or len(op[1]) != w):
+        if op[0] == "append" and (lazy or len(op) != 2 or not isinstance(op[1], list) or len(op[1]) != w):
             return False
         if op[0] in ("fetchmany", "arraysize", "observe") and len(op) != 2:
             return False
-        if op[0] in ("arraysize", "observe") and not isinstance(op[1], int):
+        if op[0] == "arraysize" and (not isinstance(op[1], int) or op[1] < 0):
             return False
+        if op[0] == "fetchmany" and op[1] is not None and (not isinstance(op[1], int) or isinstance(op[1], bool) or op[1] < 0):
+            return False
+        if op[0] == "observe":
+            if isinstance(op[1], int) and not isinstance(op[1], bool):
+                if lazy:
+                    return False
+            elif op[1] not in obs.by_label or (lazy and obs.by_label[op[1]][2] != "pure"):
+                return False
         if op[0] in ("fetchone", "fetchall") and len(op) != 1:
             return False
         if op[0] not in ("fetchone", "fetchall", "fetchmany", "arraysize", "observe", "append"):
@@ -189,36 +517,85 @@ def valid_case(c):
     return True
 
 
+def _features(ctx, c):
+    src = c["src"]
+    k = src["kind"]
+    ctx.hit("src:" + k + (":" + src.get("how", "list") if k == "arrow" else "") + (":parent-" + src.get("parent", "rows") if k in ("select", "filter", "take") else ""))
+    rows, tables, size = layout(c)
+    ctx.hit("rows:%s" % (len(rows) if len(rows) < 9 else ("9-98" if len(rows) < 99 else ("99-101" if len(rows) <= 101 else ("102-9998" if len(rows) < 9999 else "9999+")))))
+    ctx.hit("lazy" if is_lazy(c) else "eager")
+    if is_lazy(c) and k not in ("gen", "iter"):
+        sizes = [len(t) for t in tables]
+        if sizes and sizes[0] == 0:
+            ctx.hit("chunks:empty-first")
+        if any(s == 0 for s in sizes[1:-1]):
+            ctx.hit("chunks:empty-middle")
+        if len(sizes) > 1 and sizes[-1] == 0:
+            ctx.hit("chunks:empty-last")
+        if sizes and all(s == 0 for s in sizes):
+            ctx.hit("chunks:all-empty")
+        if any(a == 0 and b == 0 for a, b in zip(sizes, sizes[1:])):
+            ctx.hit("chunks:two-empty-in-a-row")
+        ctx.hit("chunks:n=%s" % (len(sizes) if len(sizes) < 6 else "6+"))
+        if size is not None:
+            ctx.hit("arrow:max_size" + ("<rows" if size < sum(sizes) else "=rows" if size == sum(sizes) else ">rows"))
+    for op in c["ops"]:
+        ctx.hit("op:" + op[0])
+        if op[0] == "observe":
+            ctx.hit("obs:" + observers().get(op[1])[0])
+        if op[0] == "fetchmany":
+            ctx.hit("fetchmany:" + ("omitted" if op[1] is None else "0" if op[1] == 0 else "k"))
+
+
 def evaluate(ctx, cases):
+    cases = [norm_case(c) for c in cases]
+    for c in cases:
+        if not valid_case(c):
+            raise InfraError("generator produced an invalid case: %r" % (c,))
+    cases = [reference_rows(ctx, c) for c in cases]
     lines = [model_line(c) for c in cases]
     mouts = ctx.model.batch(lines)
     for c, mo in zip(cases, mouts):
         outs, final_rows = run_impl(c)
-        nontrivial = len(c["ops"]) >= 2 and len(c["rows"]) >= 1
+        rows = layout(c)[0]
+        nontrivial = len(c["ops"]) >= 2 and len(rows) >= 1
         ctx.case(c, nontrivial)
-        for op in c["ops"]:
-            ctx.hit("op:" + op[0])
-        ctx.hit("rows:%d" % min(len(c["rows"]), 9))
-        ctx.hit("lazy" if c.get("lazy") else "eager")
-        ctx.hit("ctor:" + c.get("ctor", "rows"))
+        _features(ctx, c)
         clause = oracle(c, outs, final_rows)
         if not mo.startswith("ok "):
             raise InfraError("model rejected case %r: %r" % (c, mo))
         m = wire.dec_all(mo[3:])
+        # m = [code machine outs, its store, live, spec machine outs, spec rows, frame rows]
+        if m[5] != rows:
+            raise InfraError("the model and the harness disagree about the rows of the frame: %r" % (c,))
+        if m[0] != m[3]:
+            ctx.hit("model:code-machine-differs-from-spec-machine")
         if clause is not None:
+            seen = ctx.__dict__.setdefault("_c04_seen_clauses", set())
+            if _norm(clause) in seen:  # this kind of failure has its minimal replay already
+                ctx.hit("violation-dup:" + _norm(clause))
+                continue
+            seen.add(_norm(clause))
+
             def still(c2):
                 if not valid_case(c2):
                     return False
+                c2 = reference_rows(ctx, {k_: v_ for k_, v_ in c2.items() if k_ != "_twin"})
                 try:
                     o2, f2 = run_impl(c2)
                     return _norm(oracle(c2, o2, f2)) == _norm(clause)
                 except InfraError:
+                    raise
+                except Exception:
                     return False
-            c_min = shrink(c, still) if not ctx.replaying else c
+            c_min = shrink(c, still, budget=1500) if not ctx.replaying else c
             o2, f2 = run_impl(c_min)
             ctx.fail(c_min, oracle(c_min, o2, f2) or clause, impl=o2, model=m[0] if c_min is c else None)
-        elif m[0] != outs or (final_rows is not None and m[3] != final_rows):
-            ctx.disagree(c, {"outs": outs, "rows": final_rows}, {"outs": m[0], "rows": m[3]})
+        elif m[0] != outs or (final_rows is not None and m[1] != final_rows):
+            ctx.disagree(c, {"outs": outs, "rows": final_rows}, {"outs": m[0], "rows": m[1]})
+
+
+# ----------------------------------------------------------------------------- generators
 
 
 def alphabet(kmax):
@@ -229,6 +606,7 @@ def alphabet(kmax):
 
 def exhaustive_cases(ctx, depth, nmax, kmax):
     alpha = alphabet(kmax)
+    labels = observers().eager_labels
     obs_i = 0
     for n in range(nmax + 1):
         rows = [[i] for i in range(n)]
@@ -237,70 +615,212 @@ def exhaustive_cases(ctx, depth, nmax, kmax):
                 ops = []
                 for op in hist:
                     if op[0] == "observe":
-                        ops.append(["observe", obs_i])
+                        ops.append(["observe", labels[obs_i % len(labels)]])
                         obs_i += 1
                     else:
                         ops.append(op)
-                yield {"rows": rows, "width": 1, "ops": ops}
+                yield {"src": {"kind": "rows", "rows": rows}, "width": 1, "ops": ops}
                 if n and any(o[0] == "append" for o in ops):
-                    yield {"rows": rows, "width": 1, "ops": ops, "ctor": "dicts"}
+                    # the frame built from dictionaries keeps no byte total until nbytes() is called
+                    yield {"src": {"kind": "dicts", "rows": rows}, "width": 1, "ops": ops}
 
 
-def random_case(ctx, lazy=False):
+def compositions(nmax, maxlen):
+    """All lists of chunk sizes (0 allowed) of length 1..maxlen with sum <= nmax."""
+    out = []
+    for ln in range(1, maxlen + 1):
+        for sizes in itertools.product(range(nmax + 1), repeat=ln):
+            if sum(sizes) <= nmax:
+                out.append(list(sizes))
+    return out
+
+
+def lazy_alphabet(kmax):
+    return [["fetchone"], ["fetchall"], ["fetchmany", None], ["arraysize", 1]] + [["fetchmany", k] for k in range(kmax + 1)]
+
+
+def _tables_from(sizes):
+    it = itertools.count()
+    return [[[next(it)] for _ in range(s)] for s in sizes]
+
+
+def exhaustive_lazy(ctx, depth, nmax, maxlen, kmax):
+    alpha = lazy_alphabet(kmax)
+    hists = [list(h) for d in range(1, depth + 1) for h in itertools.product(alpha, repeat=d)]
+    for sizes in compositions(nmax, maxlen):
+        tables = _tables_from(sizes)
+        for h in hists:
+            yield {"src": {"kind": "arrow", "tables": tables, "how": "list"}, "width": 1, "ops": h}
+    # every mask over 0..nmax parent rows for filter / take, every history
+    for n in range(nmax + 1):
+        parent = [[i] for i in range(n)]
+        for mask in itertools.product([False, True], repeat=n):
+            for h in hists:
+                yield {"src": {"kind": "filter", "rows": parent, "mask": list(mask)}, "width": 1, "ops": h}
+                yield {"src": {"kind": "take", "rows": parent, "indexes": [i for i, m in enumerate(mask) if m]}, "width": 1, "ops": h}
+        for h in hists:
+            yield {"src": {"kind": "gen", "rows": parent}, "width": 1, "ops": h}
+            yield {"src": {"kind": "select", "rows": parent, "columns": ["a"]}, "width": 1, "ops": h}
+
+
+ODD_VALUES = [None, "é", 2**70, 1.5, "", -1]
+
+
+def random_ops(ctx, n, width, lazy):
     rng = ctx.rng
-    n = rng.choice([0, 1, 2, 3, 5, 8, 13, 40, 150]) if rng.random() < 0.5 else rng.randint(0, 12)
-    width = rng.choice([1, 2])
-    rows = [[rng.randint(-3, 3) for _ in range(width)] for _ in range(n)]
+    obs = observers()
     ops = []
     for _ in range(rng.randint(1, 14)):
         r = rng.random()
         if r < 0.2:
             ops.append(["fetchone"])
         elif r < 0.5:
-            ops.append(["fetchmany", rng.choice([None, 0, 1, 2, 3, n, n + 1, rng.randint(0, 20)])])
+            ops.append(["fetchmany", rng.choice([None, 0, 1, 2, 3, n, n + 1, max(n - 1, 0), rng.randint(0, 20)])])
         elif r < 0.58:
             ops.append(["fetchall"])
         elif r < 0.7:
-            ops.append(["arraysize", rng.choice([0, 1, 2, 5, 100, 1000])])
-        elif r < 0.93 and not lazy:
-            ops.append(["observe", rng.randrange(64)])
-        elif not lazy and r >= 0.93:
+            ops.append(["arraysize", rng.choice([0, 1, 2, 5, 99, 100, 101, 1000])])
+        elif r < 0.93:
+            ops.append(["observe", rng.choice(obs.pure_labels if lazy else obs.eager_labels)])
+        elif not lazy:
             ops.append(["append", [rng.randint(-3, 3) for _ in range(width)]])
-    if not ops:
-        ops = [["fetchone"]]
-    c = {"rows": rows, "width": width, "ops": ops}
-    if lazy:
-        c["lazy"] = True
-    elif rng.random() < 0.3:
-        c["ctor"] = rng.choice(["dicts", "tuple-schema"])
+    return ops or [["fetchone"]]
+
+
+def random_sizes(rng):
+    """Chunk sizes with empty tables at the start, in the middle and at the end."""
+    ln = rng.choice([1, 2, 3, 3, 4, 5, 8])
+    sizes = [rng.choice([0, 0, 1, 2, 3, 5]) for _ in range(ln)]
+    r = rng.random()
+    if r < 0.25 and ln >= 3:
+        sizes[rng.randrange(1, ln - 1)] = 0
+        sizes[0] = sizes[0] or 2
+        sizes[-1] = sizes[-1] or 3
+    elif r < 0.4:
+        sizes[0] = 0
+    elif r < 0.55:
+        sizes[-1] = 0
+    return sizes
+
+
+def random_case(ctx, lazy=False):
+    rng = ctx.rng
+    width = rng.choice([1, 2])
+    if not lazy:
+        n = rng.choice([0, 1, 2, 3, 5, 8, 13, 40, 99, 100, 101, 150]) if rng.random() < 0.5 else rng.randint(0, 12)
+        rows = [[rng.randint(-3, 3) for _ in range(width)] for _ in range(n)]
+        kind = "rows"
+        if rng.random() < 0.4:
+            kind = rng.choice(["dicts", "tuple-schema", "relation"])
+            if kind == "dicts" and not rows:
+                kind = "rows"
+        return {"src": {"kind": kind, "rows": rows}, "width": width, "ops": random_ops(ctx, n, width, False)}
+    kind = rng.choice(["gen", "iter", "arrow", "arrow", "arrow", "select", "filter", "take"])
+    if kind == "arrow":
+        sizes = random_sizes(rng)
+        it = itertools.count(rng.randint(-2, 2))
+        tables = [[[next(it) if j == 0 else rng.randint(-3, 3) for j in range(width)] for _ in range(s)] for s in sizes]
+        src = {"kind": "arrow", "tables": tables, "how": rng.choice(["list", "list", "tuple", "gen"] + (["single"] if len(tables) == 1 else []))}
+        total = sum(sizes)
+        if rng.random() < 0.2:
+            src["size"] = rng.choice([1, max(total - 1, 1), max(total, 1), total + 1, rng.randint(1, 6)])
+        n = min(total, src.get("size") or total)
+    else:
+        n0 = rng.choice([0, 1, 2, 3, 5, 8, 13, 99, 100, 101]) if rng.random() < 0.4 else rng.randint(0, 10)
+        vals = (lambda: rng.choice(ODD_VALUES)) if rng.random() < 0.2 else (lambda: rng.randint(-3, 3))
+        rows = [[vals() for _ in range(width)] for _ in range(n0)]
+        src = {"kind": kind, "rows": rows}
+        if kind in ("select", "filter", "take") and rng.random() < 0.3:
+            src["parent"] = "gen"
+        if kind == "select":
+            src["columns"] = rng.choice([["a"], ["b"], ["b", "a"], ["a", "b"]] if width == 2 else [["a"]])
+        elif kind == "filter":
+            p = rng.choice([0.0, 0.2, 0.5, 0.8, 1.0])
+            src["mask"] = [rng.random() < p for _ in range(rng.choice([n0, n0, n0, max(n0 - 1, 0), n0 + 2]))]
+        elif kind == "take":
+            src["indexes"] = rng.choice([[], list(range(n0)), [0], [n0 - 1, 0, 0], [n0, -1]]) if rng.random() < 0.4 else [rng.randint(-1, n0 + 1) for _ in range(rng.randint(0, n0 + 2))]
+        n = n0
+    c = {"src": src, "width": width, "ops": None}
+    c["ops"] = random_ops(ctx, len(layout(c)[0]), width, True)
     return c
 
 
+def boundary_cases(ctx):
+    """Exactly at / one past the thresholds in the source: arraysize 100 and the 10 000-row conversion batch."""
+    out = []
+    for n in (99, 100, 101):
+        rows = [[i] for i in range(n)]
+        for kind in ("rows", "gen"):
+            out.append({"src": {"kind": kind, "rows": rows}, "width": 1, "ops": [["fetchmany", None], ["fetchone"], ["fetchmany", None], ["fetchall"]]})
+        out.append({"src": {"kind": "arrow", "tables": [rows[:50], [], rows[50:]], "how": "list"}, "width": 1,
+                    "ops": [["fetchmany", None], ["fetchmany", None], ["fetchone"]]})
+    for n, a in ((101, 101), (150, 101), (150, 1000), (101, 99), (200, 150)):
+        rows = [[i] for i in range(n)]
+        for kind in ("rows", "gen"):
+            out.append({"src": {"kind": kind, "rows": rows}, "width": 1,
+                        "ops": [["arraysize", a], ["fetchmany", None], ["fetchmany", None], ["fetchone"]]})
+    for n in ctx.scale((10001,), (9999, 10000, 10001)):
+        rows = [[i] for i in range(n)]
+        out.append({"src": {"kind": "arrow", "tables": [rows, [], rows[:3]], "how": "list"}, "width": 1,
+                    "ops": [["fetchmany", 10000], ["fetchone"], ["fetchmany", 2], ["fetchall"], ["fetchone"]]})
+    out.append({"src": {"kind": "arrow", "tables": [[[i] for i in range(7)]], "how": "single", "size": 3}, "width": 1,
+                "ops": [["fetchmany", 2], ["fetchall"], ["fetchone"]]})
+    return out
+
+
 def run(ctx):
-    ctx.note("rule", "histories over the op alphabet run on DataFrame and on the Lean cursor machine; "
+    obs = observers()
+    ctx.note("rule", "histories over the op alphabet run on DataFrame and on the Lean code machine; "
              "non-trivial = at least one row and at least two operations; distinct by canonical JSON")
+    ctx.note("observers", {"members_of_DataFrame": obs.members, "recipes": len(obs.recipes),
+                           "picked_up_automatically": obs.auto, "not_observers": sorted(NOT_OBSERVERS),
+                           "unclassified_members_not_exercised": obs.unclassified})
     depth, nmax, kmax = ctx.scale((4, 3, 2), (5, 3, 4))
     batch = []
     total = 0
-    for c in exhaustive_cases(ctx, depth, nmax, kmax):
-        batch.append(c)
-        if len(batch) >= 5000:
+
+    def flush(force=False):
+        nonlocal batch, total
+        if batch and (force or len(batch) >= 5000):
             evaluate(ctx, batch)
             total += len(batch)
             batch = []
-    evaluate(ctx, batch)
-    total += len(batch)
+
+    for c in exhaustive_cases(ctx, depth, nmax, kmax):
+        batch.append(c)
+        flush()
+    flush(True)
+    n_eager = total
+    ldepth, lnmax, lmaxlen, lkmax = ctx.scale((3, 3, 3, 2), (4, 3, 4, 3))
+    for c in exhaustive_lazy(ctx, ldepth, lnmax, lmaxlen, lkmax):
+        batch.append(c)
+        flush()
+    flush(True)
     ctx.exhaustive = False
-    ctx.note("exhaustive_scope", "all histories of depth 1..%d over %d operations on frames of 0..%d rows (%d histories), then random"
-             % (depth, len(alphabet(kmax)), nmax, total))
-    n_random = ctx.scale(3000, 40000)
-    cases = [random_case(ctx, lazy=(i % 4 == 3)) for i in range(n_random)]
+    ctx.note("exhaustive_scope", "materialised: all histories of depth 1..%d over %d operations on frames of 0..%d rows (%d histories); "
+             "lazily backed: all cursor-only histories of depth 1..%d over %d operations on from_arrow frames over every list of 1..%d tables "
+             "of 0..%d rows in total (empty tables anywhere), every filter mask / take set over 0..%d parent rows, generator and select "
+             "(%d histories); then boundaries and random"
+             % (depth, len(alphabet(kmax)), nmax, n_eager, ldepth, len(lazy_alphabet(lkmax)), lmaxlen, lnmax, lnmax, total - n_eager))
+    evaluate(ctx, boundary_cases(ctx))
+    # every observer once, between two fetches, on a frame with rows left (and with nothing left)
+    sweep = []
+    for label in obs.eager_labels:
+        for kind in ("rows", "dicts", "relation"):
+            sweep.append({"src": {"kind": kind, "rows": [[1, 2], [3, 4], [5, 6]]}, "width": 2,
+                          "ops": [["fetchone"], ["observe", label], ["fetchmany", 1], ["observe", label], ["fetchall"], ["observe", label], ["fetchone"]]})
+    for label in obs.pure_labels:
+        sweep.append({"src": {"kind": "arrow", "tables": [[[1, 2]], [], [[3, 4], [5, 6]]], "how": "list"}, "width": 2,
+                      "ops": [["observe", label], ["fetchone"], ["observe", label], ["fetchall"], ["observe", label], ["fetchone"]]})
+    evaluate(ctx, sweep)
+    n_random = ctx.scale(4000, 40000)
+    cases = [random_case(ctx, lazy=(i % 2 == 1)) for i in range(n_random)]
     for i in range(0, len(cases), 5000):
         evaluate(ctx, cases[i : i + 5000])
 
 
 def intensify(ctx):
-    cases = [random_case(ctx, lazy=(i % 3 == 2)) for i in range(20000)]
+    cases = [random_case(ctx, lazy=(i % 2 == 1)) for i in range(20000)]
     for i in range(0, len(cases), 5000):
         evaluate(ctx, cases[i : i + 5000])
 
